@@ -753,16 +753,21 @@ func genMotif(r *rand.Rand, m int, in *kvInput, exists map[string]bool, hot []st
 			default:
 				nested = &KOp{Kind: "WriteCas", CasMode: "current", Val: sp(pick(r, jsonBodies))}
 			}
-			switch r.Intn(5) {
+			switch r.Intn(6) {
 			case 0:
 				kvn(&KOp{Kind: "Update", Exp: genExp(r), Cb: &Callback{Kind: pick(r, []string{"set", "append", "delete"}), Val: sp(pick(r, jsonBodies))}}, nested)
-			case 1:
+			case 1, 5:
 				wn := toucher()
 				switch r.Intn(3) {
 				case 0:
 					wn = &KOp{Kind: "SetXattrs", Xs: genXs(r, false)}
 				case 1:
-					wn = &KOp{Kind: "DeleteSubDocPaths", Names: []string{pick(r, kvXnames)}}
+					xn := pick(r, kvXnames)
+					if r.Intn(3) > 0 {
+						x := pick(r, xattrVals)
+						kv(&KOp{Kind: "SetXattrs", Xs: []XKV{{Name: xn, Val: &x}}}) // so that there is something to remove
+					}
+					wn = &KOp{Kind: "DeleteSubDocPaths", Names: []string{xn}}
 				}
 				kvn(&KOp{Kind: "WriteUpdateWithXattrs", Cb: &Callback{Kind: "result", Val: sp(pick(r, jsonBodies)), Xs: genXs(r, false)}}, wn)
 			case 2, 4:
